@@ -85,8 +85,8 @@ CHECKS = {
    note="Bounds: 3 (quick) / 5 (thorough) slabs, every parent assignment, one reference optionally nested in a non-reference wrapper, expected root count symbolic in -1..n+1. Outside: larger graphs; cyclic graphs (not produced by valid histories or the named corruptions; the engine observed that CheckStorageHealth does not terminate on some cycles, recorded in DESIGN.md as an observation outside C20).",
    ref="6/C20"),
  "C05": dict(
-   text="Split arithmetic of array data slabs for every legal slab size (T symbolic 256..32768) and every element-size mix within the inline limit: both halves inside [min,max], non-empty, sizes/counts/order/next-chain consistent; plus the tree invariant (VerifyArray) after every step of the C01 harness. Rebalance/merge kernel: two sibling leaves of 1..4 (quick) / 1..8 (thorough) elements, one underflowing by at most one element, T symbolic: if the real CanLend* says yes the real LendToRight/BorrowFromRight leaves both inside the band, otherwise the real Merge does not overflow; sizes, counts, order and next-chain preserved. Batch builds and collision-group steps are checked with VerifyArray/VerifyMap too. Map data slabs: the same split and rebalance/merge kernels with ascending symbolic digests (first keys, digest order and element order preserved). Array index slabs: split after overflowing by one child header and rebalance/merge after losing one, with 1..12 (quick) / 1..24 (thorough) children per slab and symbolic child counts: cumulative count index rebuilt exactly, both slabs inside the band or the merged slab not overflowing. The float computations in the index slabs (ceil(size/14), ceil(size/18), ceil(c/2)) are summarised as integer formulas in those runs; a lemma harness discharges the equalities with exact IEEE-754 semantics (bit-vector + FloatingPoint rendering) for all sizes below 2^11 (quick) / 2^16 (thorough).",
-   note="Bounds: leaves of 2..8 (quick) / 2..24 (thorough) elements for the split kernel; tree-level invariant as C01. Outside: larger leaves, map index-slab kernels as units (exercised only through tree steps), setThreshold's own float path (the harnesses set the derived limits with integer formulas).",
+   text="Split arithmetic of array data slabs for every legal slab size (T symbolic 256..32768) and every element-size mix within the inline limit: both halves inside [min,max], non-empty, sizes/counts/order/next-chain consistent; plus the tree invariant (VerifyArray) after every step of the C01 harness. Rebalance/merge kernel: two sibling leaves of 1..4 (quick) / 1..8 (thorough) elements, one underflowing by at most one element, T symbolic: if the real CanLend* says yes the real LendToRight/BorrowFromRight leaves both inside the band, otherwise the real Merge does not overflow; sizes, counts, order and next-chain preserved. Batch builds and collision-group steps are checked with VerifyArray/VerifyMap too. Map data slabs: the same split and rebalance/merge kernels with ascending symbolic digests (first keys, digest order and element order preserved). Array and map index slabs: split after overflowing by one child header and rebalance/merge after losing one, with 1..12 (quick) / 1..24 (thorough) children per slab and symbolic child counts: cumulative count index rebuilt exactly, both slabs inside the band or the merged slab not overflowing. The float computations in the index slabs (ceil(size/14), ceil(size/18), ceil(c/2)) are summarised as integer formulas in those runs; a lemma harness discharges the equalities with exact IEEE-754 semantics (bit-vector + FloatingPoint rendering) for all sizes below 2^11 (quick) / 2^16 (thorough).",
+   note="Bounds: leaves of 2..8 (quick) / 2..24 (thorough) elements for the split kernel; tree-level invariant as C01. Outside: larger leaves, setThreshold's own float path (the harnesses set the derived limits with integer formulas).",
    ref="6/C05"),
 }
 
